@@ -26,3 +26,15 @@ def run_tb(top, tb, *, deadline=None):
 def getv(ctx, sig):
     """read a port as a plain unsigned integer (enum/signed shapes included)"""
     return ctx.get(Value.cast(sig).as_unsigned())
+
+
+def simulator(top, case, stats=None, p=0.2):
+    """Simulator for `top`; for a fifth of the cases (own random stream) the design has already been
+    elaborated once before (a throw-away Simulator): a component may be elaborated as often as the
+    user wishes, so what the testbench then sees is a repeated elaboration of the same instances"""
+    from . import lib
+    if lib.rng_for(case.get("seed", 0), case.get("idx", 0), 4242).random() < p:
+        Simulator(top)
+        if stats is not None:
+            stats["pre_elaborated"] = stats.get("pre_elaborated", 0) + 1
+    return Simulator(top)
